@@ -338,7 +338,7 @@ Lemma pelems_S : forall j5 f s, pelems j5 (S f) s =
 Proof. reflexivity. Qed.
 
 Lemma pmembers_key : forall j5 f ws k x rest, forallb is_ws ws = true -> str_okb j5 k = true ->
-  pmembers j5 (S f) (ws ++ jstring k ++ [58; 32] ++ x ++ rest) =
+  pmembers j5 (S f) (ws ++ jstring k ++ 58 :: 32 :: x ++ rest) =
   match pval j5 f (32 :: x ++ rest) with
   | None => None
   | Some (v, r3) =>
@@ -355,3 +355,142 @@ Proof.
   rewrite <- app_assoc. cbn [app]. rewrite pstring_escape by assumption.
   cbn [skip_ws]. change (is_ws 58) with false. cbv iota. change (58 =? 58) with true. cbv iota. reflexivity.
 Qed.
+
+(* ================================================================== containers *)
+
+Lemma seq_text_app : forall o c spi spc x r rest,
+  seq_text o c spi spc (x :: r) ++ rest = o :: spi ++ x ++ flat_map (fun t => 44 :: spi ++ t) r ++ spc ++ c :: rest.
+Proof. intros. unfold seq_text. cbn [app]. rewrite <- !app_assoc. reflexivity. Qed.
+
+Lemma seq_text_len : forall o c spi spc x r,
+  length (seq_text o c spi spc (x :: r)) =
+  (2 + length (spi ++ x ++ flat_map (fun t => 44%Z :: spi ++ t) r) + length spc)%nat.
+Proof. intros. unfold seq_text. cbn [length]. rewrite !app_length. cbn [length]. lia. Qed.
+
+(* a printed value starts with a character that is neither whitespace nor a closing bracket *)
+Lemma jp_head : forall j5 lay n v, jwfb j5 v = true ->
+  exists c t, jp lay n v = c :: t /\ is_ws c = false /\ (c =? 93) = false /\ (c =? 125) = false.
+Proof.
+  intros j5 lay n v H. destruct v as [|[|]|t|s|l|kvs]; cbn [jp].
+  - eexists _, _. split; [reflexivity|]. repeat split.
+  - eexists _, _. split; [reflexivity|]. repeat split.
+  - eexists _, _. split; [reflexivity|]. repeat split.
+  - cbn [jwfb] in H. destruct (num_ok_head _ H) as (c & r & -> & Hc). exists c, r.
+    split; [reflexivity|]. split; [apply num_not_ws; exact Hc | apply num_not_close; exact Hc].
+  - eexists _, _. split; [reflexivity|]. repeat split.
+  - destruct l; eexists _, _; (split; [reflexivity|]); repeat split.
+  - destruct kvs; eexists _, _; (split; [reflexivity|]); repeat split.
+Qed.
+
+Ltac norm_app := cbn [app]; repeat (rewrite <- app_assoc; cbn [app]).
+
+Section Structure.
+  Variable j5 : bool.
+  Variable lay : layout.
+
+  (* the reader inverts the printer on v, whatever whitespace precedes and whatever follows *)
+  Definition inv_ok (v : jvalue) : Prop :=
+    jwfb j5 v = true -> forall n f ws rest, forallb is_ws ws = true -> follow_ok rest = true ->
+    (length (jp lay n v) < f)%nat -> pval j5 f (ws ++ jp lay n v ++ rest) = Some (v, rest).
+
+  Lemma pelems_ok : forall r x n f spi spc rest,
+    forallb is_ws spi = true -> forallb is_ws spc = true ->
+    Forall inv_ok (x :: r) -> forallb (jwfb j5) (x :: r) = true ->
+    (length (spi ++ jp lay n x ++ flat_map (fun t => 44%Z :: spi ++ t) (map (jp lay n) r)) + 1 < f)%nat ->
+    pelems j5 f (spi ++ jp lay n x ++ flat_map (fun t => 44 :: spi ++ t) (map (jp lay n) r) ++ spc ++ 93 :: rest)
+    = Some (x :: r, rest).
+  Proof.
+    induction r as [|y r IH]; intros x n f spi spc rest Hspi Hspc HP Hwf Hlen.
+    - destruct f as [|f]; [lia|]. rewrite pelems_S.
+      inversion HP as [|? ? Hx _]; subst.
+      cbn [forallb] in Hwf. apply andb_true_iff in Hwf. destruct Hwf as [Hwx _].
+      cbn [map flat_map app] in *. rewrite app_nil_r in Hlen. rewrite app_length in Hlen.
+      rewrite (Hx Hwx n f spi (spc ++ 93 :: rest)); [|assumption|apply follow_ws; [assumption|reflexivity]|lia].
+      rewrite skip_ws_app by assumption. reflexivity.
+    - destruct f as [|f]; [lia|]. rewrite pelems_S.
+      inversion HP as [|? ? Hx HP']; subst.
+      cbn [forallb] in Hwf. apply andb_true_iff in Hwf. destruct Hwf as [Hwx Hwf'].
+      cbn [map flat_map] in *. norm_app.
+      rewrite !app_length in Hlen. cbn [length] in Hlen. rewrite !app_length in Hlen.
+      rewrite (Hx Hwx n f spi (44 :: spi ++ jp lay n y ++
+                 flat_map (fun t => 44 :: spi ++ t) (map (jp lay n) r) ++ spc ++ 93 :: rest));
+        [|assumption|reflexivity|lia].
+      cbn [skip_ws]. change (is_ws 44) with false. cbv iota. change (44 =? 44) with true. cbv iota.
+      rewrite (IH y n f spi spc rest); try assumption; [reflexivity|].
+      rewrite !app_length. lia.
+  Qed.
+
+  Lemma inv_ok_sp : forall x, inv_ok x -> jwfb j5 x = true -> forall n f rest, follow_ok rest = true ->
+    (length (jp lay n x) < f)%nat -> pval j5 f (32 :: jp lay n x ++ rest) = Some (x, rest).
+  Proof. intros x H Hw n f rest Hf Hl. apply (H Hw n f [32] rest); auto. Qed.
+
+  Definition member_text (n : nat) (kv : list Z * jvalue) : list Z :=
+    match kv with (k, x) => jstring k ++ [58; 32] ++ jp lay n x end.
+  Definition member_wf (kv : list Z * jvalue) : bool :=
+    match kv with (k, x) => str_okb j5 k && jwfb j5 x end.
+
+  Lemma pmembers_ok : forall r kv n f spi spc rest,
+    forallb is_ws spi = true -> forallb is_ws spc = true ->
+    Forall (fun kv => inv_ok (snd kv)) (kv :: r) -> forallb member_wf (kv :: r) = true ->
+    (length (spi ++ member_text n kv ++ flat_map (fun t => 44%Z :: spi ++ t) (map (member_text n) r)) + 1 < f)%nat ->
+    pmembers j5 f (spi ++ member_text n kv ++ flat_map (fun t => 44 :: spi ++ t) (map (member_text n) r)
+                       ++ spc ++ 125 :: rest)
+    = Some (kv :: r, rest).
+  Proof.
+    induction r as [|kv' r IH]; intros [k x] n f spi spc rest Hspi Hspc HP Hwf Hlen.
+    - destruct f as [|f]; [lia|].
+      inversion HP as [|? ? Hx _]; subst. cbn [snd] in Hx.
+      cbn [forallb member_wf] in Hwf. apply andb_true_iff in Hwf. destruct Hwf as [Hwx _].
+      apply andb_true_iff in Hwx. destruct Hwx as [Hk Hwx].
+      cbn [map flat_map member_text] in *. rewrite app_nil_r in Hlen.
+      rewrite !app_length in Hlen. cbn [length] in Hlen.
+      norm_app. rewrite (pmembers_key j5 f spi k (jp lay n x)) by assumption.
+      rewrite (inv_ok_sp x Hx Hwx n f (spc ++ 125 :: rest)); [|apply follow_ws; [assumption|reflexivity]|lia].
+      rewrite skip_ws_app by assumption. reflexivity.
+    - destruct f as [|f]; [lia|].
+      inversion HP as [|? ? Hx HP']; subst. cbn [snd] in Hx.
+      cbn [forallb] in Hwf. apply andb_true_iff in Hwf. destruct Hwf as [Hwx Hwf'].
+      cbn [member_wf] in Hwx. apply andb_true_iff in Hwx. destruct Hwx as [Hk Hwx].
+      cbn [map flat_map] in *. unfold member_text in Hlen at 1. unfold member_text at 1.
+      rewrite !app_length in Hlen. cbn [length] in Hlen. rewrite !app_length in Hlen.
+      norm_app. rewrite (pmembers_key j5 f spi k (jp lay n x)) by assumption.
+      rewrite (inv_ok_sp x Hx Hwx n f); [|reflexivity|lia].
+      cbn [skip_ws]. change (is_ws 44) with false. cbv iota. change (44 =? 44) with true. cbv iota.
+      rewrite (IH kv' n f spi spc rest); try assumption; [reflexivity|].
+      rewrite !app_length. lia.
+  Qed.
+
+  Theorem pval_jp : forall v, inv_ok v.
+  Proof.
+    induction v as [| b | t | s | l IHl | kvs IHk] using jvalue_ind2; intros Hwf n f ws rest Hws Hf Hlen;
+      (destruct f as [|f]; [cbn in Hlen; lia|]).
+    - cbn [jp]. apply pval_lit; auto.
+    - destruct b; cbn [jp]; apply pval_lit; auto.
+    - cbn [jp jwfb] in *. destruct (num_ok_head _ Hwf) as (c & r & E & Hc).
+      rewrite E. cbn [app]. rewrite pval_num by assumption.
+      change (c :: r ++ rest) with ((c :: r) ++ rest). rewrite <- E. apply pnum_tok; assumption.
+    - cbn [jp jwfb] in *. unfold jstring. cbn [app]. rewrite pval_str by assumption.
+      rewrite <- app_assoc. cbn [app]. rewrite pstring_escape by assumption. reflexivity.
+    - cbn [jp jwfb] in *. destruct l as [|x r].
+      + cbn [map seq_text app]. rewrite pval_arr by assumption. reflexivity.
+      + cbn [map] in *. rewrite seq_text_app. rewrite seq_text_len in Hlen. rewrite pval_arr by assumption.
+        rewrite skip_ws_app by apply sep_ws.
+        assert (Hx : jwfb j5 x = true) by (cbn [forallb] in Hwf; apply andb_true_iff in Hwf; tauto).
+        destruct (jp_head j5 lay (S n) x Hx) as (c & t & E & Hc1 & Hc2 & _).
+        rewrite E at 1. cbn [app]. rewrite skip_ws_head by assumption. rewrite Hc2.
+        rewrite pelems_ok; try assumption; try apply sep_ws; [reflexivity|lia].
+    - cbn [jp jwfb] in *. destruct kvs as [|[k x] r].
+      + cbn [map seq_text app]. rewrite pval_obj by assumption. reflexivity.
+      + cbn [map] in *. rewrite seq_text_app. rewrite seq_text_len in Hlen. rewrite pval_obj by assumption.
+        rewrite skip_ws_app by apply sep_ws.
+        unfold jstring at 1. cbn [app]. rewrite skip_ws_head by reflexivity.
+        change (34 =? 125) with false. cbv iota.
+        pose proof (pmembers_ok r (k, x) (S n) f (sep (snd lay) (S n)) (sep (snd lay) n) rest) as HM.
+        cbn [member_text] in HM. unfold member_text in HM at 1. unfold jstring in HM at 1. cbn [app] in HM.
+        fold (member_text (S n)) in *.
+        change (fun kv : list Z * jvalue => let (k0, x0) := kv in jstring k0 ++ [58; 32] ++ jp lay (S n) x0)
+          with (member_text (S n)) in *.
+        rewrite HM; try assumption; try apply sep_ws; [reflexivity|].
+        unfold jstring in Hlen. cbn [app] in Hlen. lia.
+  Qed.
+End Structure.
